@@ -519,6 +519,29 @@ def check_declared(rep: Report) -> None:
                   "offset-free units could pass through an offset hop and zero would not map to zero", s.where)
     rep.analysed["declared_edges"] = len(ev.edges)
     rep.analysed["scales"] = [s.a.name for s in scales]
+    # R05.12: a base unit whose own dimension is the inverse of a fundamental one (a frequency unit: T^-1) is filed by _splat
+    # under that inverse dimension as a *numerator* - in the bucket where the planner expects denominators (R05.11, third
+    # probe: exponent -1) - and it is never decomposed (total exponent 1, anchor F2).  Alone it is harmless; two of them linked
+    # by declared equivalences are matched against each other with the ratio inverted (Ci/g -> Rd/g gives 2.7e-5 for 37000).
+    from ..planner_reach import PlannerReach
+    pr = PlannerReach(ev)
+    groups: Dict[Tuple, List[Any]] = {}
+    for u in ev.unit_by_id.values():
+        ex = [e for e in u.dimension.exps.values() if e]
+        if u.is_base and len(ex) == 1 and ex[0] == -1:
+            groups.setdefault(tuple(sorted(u.dimension.exps.items())), []).append(u)
+    n12 = 0
+    for key, us in sorted(groups.items()):
+        for u in us:
+            n12 += 1
+            comp = pr.component(u)
+            linked = [v.name for v in us if v is not u and v.uid in comp]
+            rep.check("R05.12", f"inverse-dimension base unit:{u.name}", not linked,
+                      f"{u.name!r} and {linked[:3]} are base units of an inverse fundamental dimension linked by declared equivalences: inside a compound "
+                      "unit the planner files them where it expects denominators and applies their ratio inverted, so the converted value depends on "
+                      "whether the unit stands alone or in a compound", u.where)
+    if n12 == 0:
+        rep.ok("R05.12", "no base unit of an inverse fundamental dimension")
 
 
 def check_reduce_dimension(rep: Report, prog: Program) -> None:
@@ -562,6 +585,7 @@ class _NoVerdict(Exception):
 
 
 _DIM = "<dimension>"
+RAISED = "<raised>"
 
 
 class SignProbe:
@@ -586,6 +610,10 @@ class SignProbe:
             raise _NoVerdict(e.id)
         if isinstance(e, ast.Attribute) and e.attr == "exponents" and isinstance(e.value, ast.Name) and env.get(e.value.id, _DIM) == _DIM:
             return self.exps
+        if isinstance(e, ast.Attribute) and e.attr == "exponents" and isinstance(e.value, ast.Attribute) and e.value.attr == "dimension":
+            return self.exps                     # self.unit.dimension.exponents
+        if isinstance(e, ast.Attribute) and e.attr == "dimension":
+            return _DIM
         if isinstance(e, ast.UnaryOp) and isinstance(e.op, ast.Not):
             return not self.ev(e.operand, env, depth)
         if isinstance(e, ast.UnaryOp) and isinstance(e.op, ast.USub):
@@ -594,6 +622,10 @@ class SignProbe:
             vals = [self.ev(v, env, depth) for v in e.values]
             return all(vals) if isinstance(e.op, ast.And) else any(vals)
         if isinstance(e, ast.Compare) and len(e.ops) == 1:
+            if isinstance(e.ops[0], (ast.Is, ast.IsNot, ast.Eq, ast.NotEq)) and isinstance(e.comparators[0], ast.Name) and e.comparators[0].id == "Number":
+                if self.ev(e.left, env, depth) == _DIM:
+                    is_number = not any(self.exps)
+                    return is_number if isinstance(e.ops[0], (ast.Is, ast.Eq)) else not is_number
             x, y = self.ev(e.left, env, depth), self.ev(e.comparators[0], env, depth)
             if x == _DIM or y == _DIM:
                 raise _NoVerdict("comparison of the dimension itself")
@@ -718,6 +750,8 @@ class SignProbe:
                 continue
             if isinstance(st, (ast.FunctionDef, ast.ClassDef, ast.AsyncFunctionDef)):
                 continue
+            if isinstance(st, ast.Raise) and not record:
+                return True, RAISED
             for nm in self._assigned([st]):
                 env.pop(nm, None)
         return False, None
@@ -982,6 +1016,8 @@ def run(rep: Report) -> None:
              "start -> end, direct hit and base case return single hops", floor=5)
     rep.rule("R05.6", "every hop returned by the path search after the dimension reduction is lifted by ** exponent, including "
              "the hops of a recursively found sub-path", floor=2)
+    rep.rule("R05.12", "no two base units of an inverse fundamental dimension (T^-1, ...) are linked by declared equivalences (the planner's sign rule would invert "
+             "their ratio inside compound units)", floor=1)
     rep.rule("R05.5", "declared ratios are positive; scale units (non-zero offsets) are leaves of the declared graph", floor=200)
     check_equate(rep, prog, resolver)
     check_translate(rep, prog, resolver)
